@@ -18,6 +18,7 @@ def main():
     if r.returncode != 0:
         print("patch does not apply:", r.stderr); sys.exit(2)
     results = {}
+    first = {}
     try:
         for p in props:
             t0 = time.time()
@@ -33,9 +34,11 @@ def main():
                         fi = d.get("failing_inputs", [])
                         if fi:
                             print("   monitor:", fi[0].get("monitor", "")[:300])
+                            first[p] = "failing input: " + fi[0].get("monitor", "")[:300]
                         elif d.get("correspondence_disagreements"):
                             x = d["correspondence_disagreements"][0]
                             print("   disagreement[%s]: impl=%s | model=%s" % (x.get("driver"), str(x.get("impl"))[:120], str(x.get("model"))[:120]))
+                            first[p] = "correspondence disagreement [%s]" % x.get("driver")
                         else:
                             print("   broken:", d.get("broken"))
                     except Exception as e:
@@ -45,5 +48,16 @@ def main():
         subprocess.run(["git", "-C", "/repo", "clean", "-fdq", "crates"])
     caught = [p for p, (rc, v, _) in results.items() if rc != 0]
     print("CAUGHT BY:", caught)
+    # record what was run next to a stored seeded change
+    d = os.path.dirname(patch)
+    if os.path.dirname(d) == os.path.join(VERIF, "seeded") and os.path.exists(os.path.join(d, "meta.json")):
+        meta = json.load(open(os.path.join(d, "meta.json")))
+        ran = meta.setdefault("verif_ran", {})
+        ran["confirm"] = "lib/seed_confirm.sh in a scratch worktree: suite passes with the change; demo fails with it and passes without (confirm.log)"
+        ran.setdefault("checks", {})
+        for p_, (rc, v, dt) in results.items():
+            ran["checks"]["%s/%s" % (p_, tier)] = dict(exit=rc, lines=[x[:300] for x in v], first=first.get(p_, ""))
+        ran["caught_by"] = sorted(set(ran.get("caught_by", [])) | set(caught))
+        json.dump(meta, open(os.path.join(d, "meta.json"), "w"), indent=1)
 
 main()
